@@ -39,6 +39,13 @@ H   call histories: every ordered pair (thorough: triple) of calls from a 9-call
     (bounded ramp with winding, periodic field on a corner-centred disc that is connected only through the seam, bounded
     masked, periodic full, float32 with holes, Poisson), imaging_utils re-imported before each history; the LAST call is
     judged by the usual oracle (a result must not depend on earlier calls) and every input must stay bitwise unchanged.
+Y   input spellings: the same wrapped values handed over in every memory layout / dtype / container the entry point may
+    meet (transposed and permuted views, as_strided Fortran order, row-padded and every-other-element views, stride-0
+    expanded rows, flipped copies, float64 / float16, requires_grad and non-leaf tensors, NumPy arrays; masks as bool /
+    uint8 / int64 / float tensors, transposed and strided views, NumPy) on non-square bounded and periodic grids with and
+    without mask, on fields that contain wraps.  Judged by the usual oracle AND differentially against the contiguous
+    float32 / bool call; inputs (and the memory around views) must stay bitwise unchanged.  Torch tensors of float32 /
+    float64 in any layout must be accepted; a rejection of any other spelling is counted per spelling, not flagged.
 P   the FFT Poisson method is outside the exactness claim: only "does not raise" (wrap_around=True; it is
     NotImplemented by design for wrap_around=False, which is recorded, not judged).
 """
@@ -74,7 +81,9 @@ CLAIM = (
     "connected mask component and differs from the input by multiples of 2*pi plus that constant. The same holds on long steep "
     "grids (1xN, 3xN, Nx2, N up to 600) whose wrap count inside one region straddles 127/128 and 255/256, on long chains of the real "
     "union-find merged in four structured orders, and for the last call of every ordered pair (thorough: triple) of calls from a "
-    "9-call alphabet after a fresh re-import of the module, with all inputs bitwise unchanged. Model checking is the right "
+    "9-call alphabet after a fresh re-import of the module, with all inputs bitwise unchanged. Every memory layout / dtype / "
+    "autograd state / mask dtype spelling of the input that the entry point accepts gives the same answer as the contiguous "
+    "float32 call on non-square bounded and periodic grids. Model checking is the right "
     "level because the guarantee rests on offset bookkeeping that must hold for every merge order, which no single input reaches."
 )
 NOTE = (
@@ -96,7 +105,8 @@ RULE = (
     "component (wrapped input) or the truth spans more than 2*pi on a component (already-unwrapped input). L: full product of "
     "long shapes x masks x fields x dtype; non-trivial when the true wrap count spans more than 127 inside one region. A3: every "
     "(chain length, merge order, slope sign). H: every ordered pair (thorough: triple) of the call alphabet; non-trivial when an "
-    "earlier call differs from the judged last call."
+    "earlier call differs from the judged last call. Y: full product of (grid, wrap, field, mask geometry) x input spellings; "
+    "non-trivial when the field really wraps on the mask and the spelling is not the canonical one."
 )
 
 TWO_PI = 2.0 * math.pi
@@ -426,6 +436,10 @@ def make_field(name, H, W, periodic, seed):
     elif name in ("bl0", "bl1", "per_bl0", "per_bl1"):
         rng = np.random.default_rng([seed, 17, 710 + int(name[-1]), H, W, int(periodic)])
         f = _band_limited(H, W, rng)
+    elif name == "ramp_x":  # constant along y: can be handed over as one row expanded with stride 0
+        f = 1.0 * xx
+    elif name == "per_x":
+        f = np.sin(2 * np.pi * xx / W + 0.4)
     elif name == "per_sin":
         f = 1.0 * np.sin(2 * np.pi * xx / W + 0.4) + 0.8 * np.cos(2 * np.pi * yy / H + 0.9)
     elif name == "per_bump":
@@ -1241,6 +1255,245 @@ def h_worker(item, seed=0):
     return t
 
 
+# ============================================================================= Y: memory layout / dtype / container of the input and of the mask
+# The same values handed over in every spelling the entry point may meet.  Judged (a) by the usual oracle and (b)
+# differentially against the canonical call (contiguous float32 phase, contiguous bool mask): float32 spellings must give
+# the same values on the mask (TOL), other dtypes the same wrap pattern on every connected region.
+Y_PHASE_F32 = ("transposed_view", "permute_view", "as_strided_fortran", "row_padded_view", "every_other", "every_other_of_transposed",
+               "expand_rows", "flip_copy", "requires_grad", "non_leaf", "non_leaf_transposed")
+Y_PHASE_OTHER = ("c_f64", "f64_transposed_view", "c_f16", "f16_transposed_view", "from_numpy_negative_stride",
+                 "np_c_f32", "np_f_f64", "np_transposed_f32", "np_readonly_f64")
+Y_MASKS = ("bool_transposed_view", "bool_every_other", "uint8", "int64", "float32", "float64", "uint8_transposed_view", "np_bool")
+# spellings that are plain torch tensors of a floating dtype the library documents (any layout, any autograd state) and
+# bool tensor masks: raising on them is a failure.  Everything else is optional: a rejection is counted, not flagged.
+Y_MUST_ACCEPT = set(Y_PHASE_F32) | {"c_f64", "f64_transposed_view", "bool_transposed_view", "bool_every_other"}
+
+
+class NotConstructible(Exception):
+    pass
+
+
+def y_phase(sp, g):
+    """(input object, list of (tensor-or-array, snapshot) pairs that must be unchanged afterwards)."""
+    H, W = g.shape
+    f32 = torch.float32
+    base = None
+    if sp == "c_f32":
+        x = torch.tensor(g, dtype=f32)
+    elif sp == "c_f64":
+        x = torch.tensor(g)
+    elif sp == "c_f16":
+        x = torch.tensor(g, dtype=torch.float16)
+    elif sp == "transposed_view":
+        x = torch.tensor(g.T.copy(), dtype=f32).T
+    elif sp == "f64_transposed_view":
+        x = torch.tensor(g.T.copy()).T
+    elif sp == "f16_transposed_view":
+        x = torch.tensor(g.T.copy(), dtype=torch.float16).T
+    elif sp == "permute_view":
+        x = torch.tensor(g.T.copy(), dtype=f32).permute(1, 0)
+    elif sp == "as_strided_fortran":
+        base = torch.tensor(g.T.copy(), dtype=f32).flatten()
+        x = torch.as_strided(base, (H, W), (1, H))
+    elif sp == "row_padded_view":
+        base = torch.full((H + 2, W + 3), 7.0, dtype=f32)
+        base[1 : H + 1, 2 : W + 2] = torch.tensor(g, dtype=f32)
+        x = base[1 : H + 1, 2 : W + 2]
+    elif sp == "every_other":
+        base = torch.full((2 * H, 2 * W), 7.0, dtype=f32)
+        base[::2, ::2] = torch.tensor(g, dtype=f32)
+        x = base[::2, ::2]
+    elif sp == "every_other_of_transposed":
+        base = torch.full((2 * W, 2 * H), 7.0, dtype=f32)
+        base[::2, ::2] = torch.tensor(g.T.copy(), dtype=f32)
+        x = base[::2, ::2].T
+    elif sp == "expand_rows":
+        if not (g == g[0]).all():
+            raise NotConstructible("field is not constant along the rows")
+        base = torch.tensor(g[0].copy(), dtype=f32)
+        x = base.expand(H, W)
+    elif sp == "flip_copy":
+        x = torch.flip(torch.tensor(g[::-1, ::-1].copy(), dtype=f32), [0, 1])
+    elif sp == "from_numpy_negative_stride":
+        a = g[::-1, ::-1].copy()[::-1, ::-1]
+        try:
+            x = torch.from_numpy(a)
+        except Exception as e:
+            raise NotConstructible(f"torch.from_numpy: {type(e).__name__}")
+    elif sp == "requires_grad":
+        x = torch.tensor(g, dtype=f32, requires_grad=True)
+    elif sp == "non_leaf":
+        x = torch.tensor(g, dtype=f32, requires_grad=True) * 1.0
+    elif sp == "non_leaf_transposed":
+        x = (torch.tensor(g.T.copy(), dtype=f32, requires_grad=True) * 1.0).T
+    elif sp == "np_c_f32":
+        x = g.astype(np.float32)
+    elif sp == "np_f_f64":
+        x = np.asfortranarray(g)
+    elif sp == "np_transposed_f32":
+        x = g.T.astype(np.float32).copy().T
+    elif sp == "np_readonly_f64":
+        x = g.copy()
+        x.setflags(write=False)
+    else:
+        raise ValueError(sp)
+    watch = [x] + ([base] if base is not None else [])
+    return x, [(w, (w.detach().clone() if torch.is_tensor(w) else w.copy())) for w in watch]
+
+
+def y_mask(sp, mask):
+    H, W = mask.shape
+    if sp == "bool":
+        m = torch.tensor(mask)
+    elif sp == "bool_transposed_view":
+        m = torch.tensor(mask.T.copy()).T
+    elif sp == "bool_every_other":
+        base = torch.ones((2 * H, 2 * W), dtype=torch.bool)
+        base[::2, ::2] = torch.tensor(mask)
+        m = base[::2, ::2]
+    elif sp == "uint8":
+        m = torch.tensor(mask.astype(np.uint8))
+    elif sp == "uint8_transposed_view":
+        m = torch.tensor(mask.T.astype(np.uint8).copy()).T
+    elif sp == "int64":
+        m = torch.tensor(mask.astype(np.int64))
+    elif sp == "float32":
+        m = torch.tensor(mask.astype(np.float32))
+    elif sp == "float64":
+        m = torch.tensor(mask.astype(np.float64))
+    elif sp == "np_bool":
+        m = mask.copy()
+    else:
+        raise ValueError(sp)
+    return m, [(m, (m.clone() if torch.is_tensor(m) else m.copy()))]
+
+
+def y_unchanged(watch):
+    for w, snap in watch:
+        if torch.is_tensor(w):
+            if w.dtype != snap.dtype or w.shape != snap.shape or w.detach().contiguous().numpy().tobytes() != snap.contiguous().numpy().tobytes():
+                return False
+        elif w.dtype != snap.dtype or w.tobytes() != snap.tobytes():
+            return False
+    return True
+
+
+def y_call(g, truth, mask, wrap, psp, msp):
+    """One call in spelling (psp, msp). Returns dict(status, out, given, bad)."""
+    x, watch = y_phase(psp, g)
+    m = None
+    if mask is not None:
+        m, w2 = y_mask(msp, mask)
+        watch += w2
+    xv = x.detach() if torch.is_tensor(x) else torch.as_tensor(np.ascontiguousarray(x))
+    given = xv.to(torch.float64).numpy().copy()
+    if not np.allclose(given, g, atol=4e-3):
+        raise Broken(f"spelling {psp} does not carry the intended values")
+    try:
+        out = public_unwrap()(x, method="reliability-sorting", mask=m, wrap_around=bool(wrap))
+    except Exception as e:
+        return dict(status="rejected", err=f"{type(e).__name__}: {str(e)[:120]}", given=given, bad=[])
+    bad = []
+    if not y_unchanged(watch):
+        bad.append(("input_unmodified", "the call changed its input (or the memory around a view, or the mask) in place"))
+    if torch.is_tensor(x) and x.requires_grad and x.is_leaf and x.grad is not None:
+        bad.append(("input_unmodified", "the call left a gradient on its input"))
+    try:
+        out = (out.detach() if torch.is_tensor(out) else torch.as_tensor(np.asarray(out))).to(torch.float64).numpy()
+    except Exception as e:
+        return dict(status="ok", out=None, given=given, bad=bad + [("result_shape", f"result of type {type(out).__name__} cannot be read as an array: {e}")])
+    if out.shape != g.shape:
+        return dict(status="ok", out=None, given=given, bad=bad + [("result_shape", f"result has shape {out.shape}, input {g.shape}")])
+    return dict(status="ok", out=out, given=given, bad=bad)
+
+
+def y_spellings(field):
+    """(phase spelling, mask spelling) pairs explored for one (grid, wrap, field, mask geometry)."""
+    ph = [p for p in Y_PHASE_F32 + Y_PHASE_OTHER if p != "expand_rows" or field in ("ramp_x", "per_x")]
+    pairs = [(p, "bool") for p in ph]
+    pairs += [("c_f32", m) for m in Y_MASKS]
+    pairs += [("transposed_view", "bool_transposed_view"), ("f64_transposed_view", "uint8_transposed_view"), ("every_other", "bool_every_other")]
+    return pairs
+
+
+def y_worker(item, seed=0, only=None):
+    H, W, wrap, field, geom = item
+    t = Tally()
+    truth = make_field(field, H, W, bool(wrap), seed)
+    g = wrap_pi(truth)
+    mask = named_mask(geom, H, W, seed)
+    mm = np.ones((H, W), bool) if mask is None else mask
+    lab, n = components(mm, bool(wrap))
+    ref = y_call(g, truth, mask, wrap, "c_f32", "bool")
+    base_case = {"part": "Y", "pt": [H, W, bool(wrap), field, geom], "seed": seed}
+    where = f"{H}x{W} wrap_around={bool(wrap)} field={field} mask={geom}"
+    if ref["status"] != "ok" or ref["out"] is None:
+        t.case(key=("Y", item, "c_f32", "bool"), nontrivial=True, outcome="canonical_failed")
+        t.fail({"part": "Y_input_spelling", "relation": "raised", "spelling": "c_f32/bool"}, dict(base_case, spelling=["c_f32", "bool"]), f"{where}: the canonical call failed: {ref.get('err', ref['bad'])}")
+        return t
+    rbad, rnon, rpat, _ = judge(ref["out"], truth + (ref["given"] - g), ref["given"], lab, n, True, "wrapped")
+    for psp, msp in y_spellings(field):
+        if only is not None and [psp, msp] != list(only):
+            continue
+        if mask is None and msp != "bool":
+            continue
+        sp = psp if (mask is None or msp == "bool") else f"{psp}/{msp}"
+        case = dict(base_case, spelling=[psp, msp])
+        cls = {"part": "Y_input_spelling", "spelling": sp}
+        try:
+            r = y_call(g, truth, mask, wrap, psp, msp)
+        except NotConstructible as e:
+            t.case(key=("Y", item, psp, msp), nontrivial=False, outcome=("Y", "not_constructible"))
+            t.extra[f"Y_not_constructible_{sp}"] += 1
+            continue
+        t.extra["Y_calls"] += 1
+        if r["status"] == "rejected":
+            t.case(key=("Y", item, psp, msp), nontrivial=False, outcome=("Y", sp, "rejected"))
+            t.extra[f"Y_rejected_{sp}"] += 1
+            if psp in Y_MUST_ACCEPT and (mask is None or msp == "bool" or msp in Y_MUST_ACCEPT):
+                t.fail(dict(cls, relation="raised"), case, f"{where}: input spelled {sp} (a torch tensor of a supported dtype) is rejected: {r['err']}")
+            continue
+        t.extra[f"Y_accepted_{sp}"] += 1
+        bad = list(r["bad"])
+        outcome = "no_result"
+        if r["out"] is not None:
+            # float16 input: the library may legitimately answer in float16 (HEAD answers in float32; worst deviation there 1e-5
+            # rad): allow 8 float16 ulps of the largest value, capped at 0.3 rad (1/20 of one wrong wrap = 0.31 rad)
+            tol = min(0.3, max(TOL, 8 * 9.77e-4 * (float(np.abs(truth).max()) + math.pi))) if "f16" in psp else TOL
+            jb, _, pat, worst = judge(r["out"], truth + (r["given"] - g), r["given"], lab, n, True, "wrapped", TOL=tol)
+            bad += jb
+            outcome = digest([list(p) for p in pat])
+            t.extra["Y_dev_" + decade(worst)] += 1
+            same_dtype = psp in Y_PHASE_F32 or psp in ("c_f32", "np_c_f32", "np_transposed_f32")
+            if same_dtype:
+                d = float(np.abs(r["out"] - ref["out"])[mm].max())
+                if not d <= TOL:
+                    i = int(np.argmax(np.abs(r["out"] - ref["out"]) * mm))
+                    bad.append(("same_answer_as_contiguous_float32", f"differs from the answer for the contiguous float32 / bool spelling of the same values by up to {d:.4g} rad = {d / TWO_PI:.3f} * 2*pi (at pixel {divmod(i, W)}; tol {TOL})"))
+            elif pat != rpat:
+                bad.append(("same_answer_as_contiguous_float32", "the wrap pattern (result - input)/(2*pi) on a connected region differs from the one for the contiguous float32 / bool spelling"))
+        t.case(key=("Y", item, psp, msp), nontrivial=bool(rnon), outcome=("Y", H, W, bool(wrap), field, geom, outcome))
+        for rel, msg in bad:
+            t.fail(dict(cls, relation=rel), case, f"{where}, input spelled {sp}: {msg}")
+        if rnon and (H, W, field, geom, psp) == (5, 7, "bl0", "bridge_col", "transposed_view") and msp == "bool":
+            t.sample({"part": "Y", "shape": [H, W], "wrap_around": bool(wrap), "field": field, "mask": geom, "spelling": [psp, msp],
+                      "strides": list(y_phase(psp, g)[0].stride()), "failures": len(bad)}, cap=1)
+    for rel, msg in rbad:
+        t.fail({"part": "Y_input_spelling", "relation": rel, "spelling": "c_f32/bool"}, dict(base_case, spelling=["c_f32", "bool"]), f"{where}, canonical spelling: {msg}")
+    return t
+
+
+def y_lattice(ctx):
+    shapes = [(3, 4), (5, 7)] if ctx.quick else [(3, 4), (4, 3), (5, 7), (8, 6), (6, 5)]
+    pts = []
+    for H, W in shapes:
+        for wrap, fields in ((False, ("ramp_a", "bl0", "ramp_x")), (True, ("per_sin", "per_bl0", "per_x"))):
+            for field in fields:
+                for geom in ("none", "bridge_col", "rand0"):
+                    pts.append((H, W, wrap, field, geom))
+    return pts
+
+
 # ============================================================================= enumeration
 A1_BOUNDED_FIELDS = ["ramp_a", "ramp_b", "quad_saddle", "bl0"]
 A1_PERIODIC_FIELDS = ["per_sin", "per_bl0"]
@@ -1511,6 +1764,13 @@ def run(ctx):
     ht = ctx.pmap(h_worker, hitems, chunk=1, label="H call histories", seed=seed)
     h_reload()
 
+    # ---- Y: memory layout / dtype / container spellings of the input and the mask
+    yt = ctx.pmap(y_worker, y_lattice(ctx), chunk=1, label="Y input spellings", seed=seed)
+    if len(yt.nontrivial) < 200 or yt.extra["Y_accepted_transposed_view"] < 10:
+        raise Broken(f"Y: degenerate spelling lattice ({len(yt.nontrivial)} non-trivial calls)")
+    ctx.say("Y: spellings rejected on this tree (counted, not judged): " + (", ".join(f"{k[len('Y_rejected_'):]}={v}" for k, v in sorted(yt.extra.items()) if k.startswith("Y_rejected_")) or "none")
+            + "; not constructible in torch: " + (", ".join(f"{k[len('Y_not_constructible_'):]}={v}" for k, v in sorted(yt.extra.items()) if k.startswith("Y_not_constructible_")) or "none"))
+
     # ---- BF
     if S.bf is not None:
         ctx.pmap(bf_point, bf_lattice(), label="BF masked embedding", seed=seed)
@@ -1545,6 +1805,9 @@ def run(ctx):
             "A3_chains": [300, 600] + ([] if ctx.quick else [73000]), "A3_orders": list(A3_ORDERS),
             "H_call_alphabet": [[c[0], list(c[1])] for c in h_alphabet()], "H_history_length": 2 if ctx.quick else 3,
             "H_histories": int(ht.extra["H_histories"]),
+            "Y_points": [list(x) for x in y_lattice(ctx)[:3]] + ["..."], "Y_grid_points": len(y_lattice(ctx)), "Y_calls": int(yt.extra["Y_calls"]),
+            "Y_phase_spellings": ["c_f32 (canonical)"] + list(Y_PHASE_F32 + Y_PHASE_OTHER), "Y_mask_spellings": ["bool (canonical)"] + list(Y_MASKS),
+            "Y_must_accept": sorted(Y_MUST_ACCEPT),
         },
         alphabet={
             "A1_fields_bounded": A1_BOUNDED_FIELDS, "A1_fields_periodic": A1_PERIODIC_FIELDS,
@@ -1629,6 +1892,12 @@ def replay(ctx, case):
         print(f"  last call after the history: {len(bad)} failure(s); the same call alone in a fresh module: {len(alone)} failure(s)")
         for rel, msg in bad:
             ctx.fail({"part": "H_call_history", "relation": rel, "last_call": hist[-1][0]}, case, f"history {case['history']}: [{rel}] {msg}")
+    elif part == "Y":
+        pt = case["pt"]
+        t = y_worker((pt[0], pt[1], pt[2], pt[3], pt[4]), seed=seed, only=case["spelling"])
+        print(f"  spelling {case['spelling']}: {int(t.extra['Y_calls'])} call(s), " + ", ".join(f"{k}={v}" for k, v in sorted(t.extra.items()) if k.startswith(("Y_rejected", "Y_accepted", "Y_not"))))
+        for f in t.fails:
+            ctx.fail(f["cls"], case, f["msg"])
     elif part == "BF":
         if S.bf is None:
             print("  unwrap_bf_overlap_phase_torch not present on this tree")
